@@ -3,6 +3,7 @@ package godi
 import (
 	"context"
 	"fmt"
+	"maps"
 	"reflect"
 	"slices"
 	"strconv"
@@ -242,10 +243,17 @@ func (sc *collection) doBuild(ctx context.Context) (Provider, error) {
 		}
 	}
 
+	// The provider works on a snapshot: later changes to the collection must not
+	// reach a provider that has already been built.
+	groups := make(map[GroupKey][]*Descriptor, len(sc.groups))
+	for key, members := range sc.groups {
+		groups[key] = slices.Clone(members)
+	}
+
 	p := &provider{
 		id:                          "p" + strconv.FormatUint(atomic.AddUint64(&providerIDCounter, 1), 36),
-		services:                    sc.services,
-		groups:                      sc.groups,
+		services:                    maps.Clone(sc.services),
+		groups:                      groups,
 		graph:                       g,
 		analyzer:                    sc.analyzer, // Share analyzer from collection
 		singletonKeys:               make([]instanceKey, 0, len(allDescriptors)),
